@@ -22,9 +22,13 @@ fn flagged(e: &StreamEvent) -> bool {
 }
 
 pub fn mk_node(w: u64) -> StreamJoinNode {
+    mk_node_named("L", "R", w)
+}
+
+pub fn mk_node_named(l: &str, r: &str, w: u64) -> StreamJoinNode {
     StreamJoinNode::new(
-        "L".to_string(),
-        "R".to_string(),
+        l.to_string(),
+        r.to_string(),
         JoinType::Inner,
         JoinStrategy::TimeWindow { duration: Duration::from_secs(w) },
         Box::new(key_of),
@@ -63,6 +67,7 @@ pub struct JN {
     nr: u64,
     maxl: i64,
     maxr: i64,
+    base: u64, // added to every timestamp and watermark (the join depends on differences only)
 }
 
 impl JN {
@@ -71,8 +76,23 @@ impl JN {
         let sink = Arc::new(Mutex::new(vec![]));
         let mut mgr = StreamJoinManager::new();
         let s2 = sink.clone();
+        // other joins sharing a stream with the one under test: registered before it / after it, kept or unregistered again
+        let others = cfg["others"].as_str().unwrap_or("none");
+        if others != "none" {
+            mgr.register_join("j2".to_string(), mk_node_named("L", "R2", w), Box::new(|_| {}));
+        }
         mgr.register_join("j".to_string(), mk_node(w), Box::new(move |j| s2.lock().unwrap().push(pair_ids(&j))));
-        JN { node: mk_node(w), mgr, sink, nl: 0, nr: 0, maxl: cfg["MaxL"].as_i64().unwrap_or(2), maxr: cfg["MaxR"].as_i64().unwrap_or(2) }
+        if others != "none" {
+            mgr.register_join("j3".to_string(), mk_node_named("L3", "R", w), Box::new(|_| {}));
+            mgr.register_join("j4".to_string(), mk_node_named("R", "L", w), Box::new(|_| {}));
+        }
+        if others == "removed" {
+            mgr.unregister_join("j2");
+            mgr.unregister_join("j3");
+            mgr.unregister_join("j4");
+        }
+        JN { node: mk_node(w), mgr, sink, nl: 0, nr: 0, maxl: cfg["MaxL"].as_i64().unwrap_or(2), maxr: cfg["MaxR"].as_i64().unwrap_or(2),
+             base: cfg["base"].as_u64().unwrap_or(0) }
     }
 }
 
@@ -83,18 +103,18 @@ impl Model for JN {
         let out: Vec<JoinedEvent> = match l["op"].as_str().unwrap() {
             "left" => {
                 self.nl += 1;
-                let e = ev("L", self.nl, a[0].as_str().unwrap(), a[1].as_u64().unwrap(), a[2].as_i64().unwrap());
+                let e = ev("L", self.nl, a[0].as_str().unwrap(), self.base + a[1].as_u64().unwrap(), a[2].as_i64().unwrap());
                 self.mgr.process_event(e.clone());
                 self.node.process_left(e)
             }
             "right" => {
                 self.nr += 1;
-                let e = ev("R", self.nr, a[0].as_str().unwrap(), a[1].as_u64().unwrap(), a[2].as_i64().unwrap());
+                let e = ev("R", self.nr, a[0].as_str().unwrap(), self.base + a[1].as_u64().unwrap(), a[2].as_i64().unwrap());
                 self.mgr.process_event(e.clone());
                 self.node.process_right(e)
             }
             "wm" => {
-                let w = a[1].as_i64().unwrap();
+                let w = self.base as i64 + a[1].as_i64().unwrap();
                 self.mgr.update_watermark("L", w);
                 self.node.update_watermark(w)
             }
